@@ -4,6 +4,7 @@ import os
 import subprocess
 
 from pyvc.report import Check
+from bounded import clinative
 from pyvc import units, ground, source, minify
 from pyvc.solve import solve_all
 from pyvc.execu import Obligation
@@ -159,6 +160,7 @@ def run(tier, seed):
                            'to would-be generated names (a, b, ba, zz, baa); all generated ids < %d distinct and lower-case; '
                            'read_names_file on %d keep files vs a reference reader' % (nat['runs'], nat['ids'], nat['keepfiles']),
                    'evaluations': nat['runs'] + nat['ids'] + nat['keepfiles'], 'failures': len(nat['bad'])}
+    clinative.fold(chk, 'luamin')
     if nat.get('timeout'):
         chk.undecide('BOUNDED:names/native run did not finish within 240 s (normally about 1 s)')
     if nat['bad'] and not chk.violations:
